@@ -270,6 +270,21 @@ class FeArray(np.ndarray):
         else:
             return self.dot(other)
 
+    def __rmatmul__(self, other) -> FeArrayALike:
+        # `constant @ field`: the constant tensor acts at every (e, p). Left to ndarray.__matmul__,
+        # the (Ne, nPg) axes of a vector field would be read as matrix axes.
+        other = np.asarray(other)
+        ndim1, ndim2 = other.ndim, self._ndim
+        if ndim1 == 1 and ndim2 == 1:
+            return FeArray.asfearray(np.einsum("i,...i->...", other, self))
+        elif ndim1 == 2 and ndim2 == 1:
+            return FeArray.asfearray(np.einsum("ij,...j->...i", other, self))
+        elif ndim1 == 1 and ndim2 == 2:
+            return FeArray.asfearray(np.einsum("i,...ij->...j", other, self))
+        elif ndim1 == 2 and ndim2 == 2:
+            return FeArray.asfearray(np.einsum("ij,...jk->...ik", other, self))
+        return NotImplemented
+
     @staticmethod
     @lru_cache(maxsize=16)
     def _dot_subscript(ndim1: int, ndim2: int) -> str:
